@@ -141,6 +141,15 @@ class SymbolicTensorNetwork:
         """
         Rename tensor ID `tid_cur` -> `tid_new`.
         """
+        if tid_cur == -1:
+            raise ValueError("cannot rename virtual tensor for open axes")
+        self._rename_tensor(tid_cur, tid_new)
+
+    def _rename_tensor(self, tid_cur: int, tid_new: int):
+        """
+        Rename tensor ID `tid_cur` -> `tid_new`, also for the virtual tensor
+        (which is temporarily renamed when merging two networks).
+        """
         if tid_cur not in self.tensors:
             raise ValueError(f"tensor with ID {tid_cur} does not exist")
         if tid_new in self.tensors:
@@ -312,7 +321,7 @@ class SymbolicTensorNetwork:
         tmp_open_tid = -1
         next_tid = max(self.tensors.keys() | other.tensors.keys(), default=0) + 1
         for tid in shared_tids:
-            other.rename_tensor(tid, next_tid)
+            other._rename_tensor(tid, next_tid)
             if tid == -1:
                 tmp_open_tid = next_tid
             next_tid += 1
